@@ -438,7 +438,8 @@ def case_netcdf(case):
         other["data"] = other["data"] * 2.0 + 1.0
         f3 = os.path.join(d, "z", "other.nc")
         save_dataset(other, f3)
-        os.replace(f3, f)
+        load_dataset(f)  # the path is read once more after the last save ...
+        os.replace(f3, f)  # ... then its file is replaced behind the library's back
         ld3 = load_dataset(f)
         if not np.array_equal(ld3["data"].values, other["data"].values):
             vs.append(V("netcdf-load-returns-the-previous-content-of-a-replaced-file", shape=case["shape"], coords=case["coords"]))
